@@ -88,6 +88,9 @@ def run(F, R):
     # queue's own index and areas) - shared with C06.L3
     from .C06 import registration_rule
     registration_rule(F, R, 'F11')
+    # F12: ... and at the addresses it was told: each transport's queue_set writes every area address, low and high word, into
+    # that area's own registers (shared with C10.M2 / C11.W3)
+    transport_registration_rule(F, R, 'F12')
     from .C03 import e3_capacity
     for add_id in pubs:
         e3_capacity(F, R, M, add_id, rule='F8', rule1='F8')
